@@ -377,6 +377,7 @@ func runParseCase(o *Oracle, c *ParseCase, rep *Report, family string) {
 			sig = "C09:panic"
 		case got == "hang":
 			sig = "C09:hang"
+			rep.Count("hangs")
 		case strings.HasPrefix(got, "ok") && want == "err":
 			sig = "C09:accepts-non-sentence"
 		case got == "err" && strings.HasPrefix(want, "ok"):
@@ -427,6 +428,10 @@ func runC09(rep *Report, r *Rng, tier string) {
 			rep.Sample(map[string]string{"text": text})
 		}
 		runParseCase(o, c, rep, fam)
+		if rep.Dist["hangs"] >= 2 {
+			rep.Note("stopped early: ParseQuery hung twice (each hang leaves a spinning goroutine)")
+			break
+		}
 	}
 	if tier == "thorough" {
 		for _, depth := range []int{1000, 100000} {
